@@ -860,6 +860,8 @@ MODULE_FULL = "ProbLogProofs.Properties.C01GroundFOFull"
 THEOREMS_FULL = {
     "all": ["ProbLogProofs.C01GroundFO.C01_groundFO_correct_wfm_partial",
             "ProbLogProofs.C01GroundFO.C01_groundFO_correct_truthFO_partial",
+            "ProbLogProofs.C01GroundFO.C01_groundFO_reported_in_range",
+            "ProbLogProofs.C01GroundFO.C01_groundFO_CorrectFO_of_returns",
             "ProbLogProofs.GroundFOSem.mspec_isModelFO", "ProbLogProofs.GroundFOSem.specOKb_sound",
             "ProbLogProofs.C01GroundFO.exF2_specOK", "ProbLogProofs.C01GroundFO.C01_groundFO_correct_wfm_exF2"],
     "sched": ["ProbLogProofs.C01GroundFO.C03_groundFO_schedule_independent_wfm_partial"],
